@@ -64,3 +64,53 @@ class _:
     }
     raises = {}
     modifies = ["Field._key", "@entry._fields"]
+
+
+@pred
+def rank_in_order(self, f, r):
+    """r is the rank of field f in the custom order: the first position of its (lower-cased, unless case sensitive) key in
+    the order list, or the length of the list when the key is not listed"""
+    return ((0 <= r < len(self._order) and self._order[r] == nkey(self, f) and forall(q, 0 <= q < r, self._order[q] != nkey(self, f)))
+            or (r == len(self._order) and forall(q, 0 <= q < len(self._order), self._order[q] != nkey(self, f))))
+
+
+@pred
+def nkey(self, f):
+    return f._key if self._case_sensitive else f._key.lower()
+
+
+@contract(SF + "SortFieldsCustomMiddleware.transform_entry")
+class _:
+    """the same Field objects, each once, ordered by their rank in the custom order (unlisted keys last), ties in source
+    order; values intact.  The sort key is the nested function _sort_key, verified against its own contract (it returns
+    the rank and lets no exception out); ghost sort_key[i] is the rank of the i-th field of the result."""
+    sorts = {"self": "ref:SortFieldsCustomMiddleware", "entry": "ref:Entry", "library": "ref:Library", "result": "ref:Entry"}
+    requires = {"field-positions": FIELD_POS, "meta-dict": "not isnone(entry._parser_metadata)", "order-list": "len(self._order) >= 0"}
+    closures = {"_sort_key": {"sorts": {"field": "ref:Field", "result": "int"},
+                              "ensures": {"rank": "rank_in_order(self, field, result)"}, "props": ("C17",)}}
+    ensures = {
+        "C17.custom-same-count": "len(entry._fields) == old(len(entry._fields))",
+        "C17.custom-only-old-fields": "forall(i, 0 <= i < len(entry._fields), exists(a, 0 <= a < old(len(entry._fields)), same(entry._fields[i], old(entry._fields[a]))))",
+        "C17.custom-all-old-fields": "forall(a, 0 <= a < old(len(entry._fields)), exists(i, 0 <= i < len(entry._fields), same(entry._fields[i], old(entry._fields[a]))))",
+        "C17.custom-each-once": "forall((i, j), 0 <= i < j < len(entry._fields), not same(entry._fields[i], entry._fields[j]))",
+        "C17.custom-rank": "forall(i, 0 <= i < len(entry._fields), rank_in_order(self, entry._fields[i], ghost('sort_key', i)))",
+        "C17.custom-ordered": "forall((i, j), 0 <= i < j < len(entry._fields), ghost('sort_key', i) <= ghost('sort_key', j))",
+        "C17.custom-stable": "forall((i, j), 0 <= i < j < len(entry._fields) and ghost('sort_key', i) == ghost('sort_key', j), ghostfn('c17_pos', ref_id(entry._fields[i])) < ghostfn('c17_pos', ref_id(entry._fields[j])))",
+        "C17.values-intact": "unchanged('Field._key') and unchanged('Field._value') and unchanged('Entry._key') and unchanged('Entry._entry_type')",
+        "C17.same-entry": "same(result, entry)",
+    }
+    raises = {}
+    modifies = ["@entry._fields", "@content(entry._parser_metadata)", "ghost:sort_key:arr", "ghost:sort_src:arr"]
+
+
+@contract(SF + "SortFieldsCustomMiddleware.__init__")
+class _:
+    """the order list is stored lower-cased unless case sensitive; an order with a repeated (normalised) key is rejected
+    with ValueError"""
+    sorts = {"self": "ref:SortFieldsCustomMiddleware", "order": "list:str", "case_sensitive": "bool", "allow_inplace_modification": "bool"}
+    ensures = {
+        "C17.order-normalised": "len(self._order) == len(order) and forall(t, 0 <= t < len(order), self._order[t] == (order[t] if case_sensitive else order[t].lower())) and self._case_sensitive == case_sensitive",
+        "C17.order-unique": "forall((a, b), 0 <= a < b < len(self._order), self._order[a] != self._order[b])",
+    }
+    raises = {"ValueError": {"when": "exists((a, b), 0 <= a < b < len(order), (order[a] if case_sensitive else order[a].lower()) == (order[b] if case_sensitive else order[b].lower()))"}}
+    modifies = ["@self._order", "@self._case_sensitive", "@self._allow_inplace_modification", "@self._allow_parallel_execution"]
